@@ -577,8 +577,8 @@ def decProcess (P : Prims) (cf : Conf) (env : Env) (rs : ReplaySet) (m0 : Msg) :
 /-! ### `_job_exec`: one whole transaction -/
 
 /-- what the client end receives (`none` = connection closed without a reply), and the new cache.
-    `sendOk = false`: the reply cannot be delivered; a successful decode is then withdrawn
-    (`replay_remove`), as `dec_process_msg` does today whenever rc = 0. -/
+    `sendOk = false`: the reply cannot be delivered; a successful decode that itself inserted the
+    replay record then withdraws it (`replay_remove`). -/
 def jobExec (P : Prims) (cf : Conf) (env : Env) (rs : ReplaySet) (req : Bytes) (sendOk : Bool) :
     Option Bytes × ReplaySet :=
   match recvMsg req with
@@ -590,7 +590,7 @@ def jobExec (P : Prims) (cf : Conf) (env : Env) (rs : ReplaySet) (req : Bytes) (
     let o := decProcess P cf env rs m
     if sendOk then (some (decRsp o.msg), o.replay)
     else
-      let rs' := if o.rc = 0 then (match o.key with | some k => o.replay.erase k | none => o.replay) else o.replay
+      let rs' := if o.rc = 0 ∧ o.inserted then (match o.key with | some k => o.replay.erase k | none => o.replay) else o.replay
       (none, rs')
 
 /-- `replay_purge` at time `now` -/
